@@ -23,8 +23,21 @@ pub fn o_hash(input: &[u8], p: &P) -> Out {
 	out.nontrivial = true;
 	let r = catch(|| -> Result<u64, (String, String)> {
 		let e = |k: &str, m: String| (k.to_string(), m);
+		if p.n[0] == 2 {
+			// history: the same thread first reads a cut-off copy of the file with hashing on (that read
+			// gives up part-way), then the whole file
+			let cut = (p.n[2].max(0) as usize).min(input.len());
+			let _ = read_slp_from(std::io::Cursor::new(&input[..cut]), p.skip, true);
+		}
 		let mut rd = EnvReader::new(input, sched_of(p));
-		let g = read_slp_from(&mut rd, p.skip, p.hash).map_err(|f| e(&format!("read-failed:{}", f.key()), format!("reading a well-formed replay failed under this read schedule: {}", f.describe())))?;
+		let g = read_slp_from(&mut rd, p.skip, p.hash);
+		if let (Sched::FailAt(_, std::io::ErrorKind::Interrupted), Err(Fail::Err(m))) = (sched_of(p), &g) {
+			if m.contains("env: injected fault") {
+				// giving up on an interrupted read call is an error, not a wrong hash
+				return Ok(2);
+			}
+		}
+		let g = g.map_err(|f| e(&format!("read-failed:{}", f.key()), format!("reading a well-formed replay failed under this read schedule: {}", f.describe())))?;
 		if !p.hash {
 			if g.hash.is_some() {
 				return Err(e("hash-unrequested", format!("hash {:?} reported although not requested", g.hash)));
@@ -98,6 +111,10 @@ pub fn schedules(bytes: &[u8], skip: bool, hash: bool, two_dev: bool) -> Vec<Sch
 			out.push(Sched::ShortAt(vec![(i, k)]));
 		}
 	}
+	// one interrupted read call (EINTR: the call fails, the caller repeats it), at every read-call index
+	for i in 0..calls {
+		out.push(Sched::FailAt(i, std::io::ErrorKind::Interrupted));
+	}
 	if two_dev {
 		for i in 0..calls {
 			for j in i + 1..calls {
@@ -112,7 +129,7 @@ pub fn schedules(bytes: &[u8], skip: bool, hash: bool, two_dev: bool) -> Vec<Sch
 
 pub fn run() {
 	let cx = ctx();
-	cx.note("rule", json!("8 replays (all regimes; gecko, doubled end, no metadata, two without any frame) x read schedules of an environment-owned reader: full reads, fixed chunk sizes 1..16/32/../4096, EVERY two-piece split (one short read at every byte offset), every single short read (1,2,3 bytes) at every read-call index, and (thorough) every pair of short reads; x skip_frames {off,on}; plus 1..64 trailing bytes after the closing brace; plus hash not requested; plus .slpp carry-through for 3 compressions. Oracle: hash == \"xxh3:\" + 16 hex digits of the ONE-SHOT xxh3_64 over the bytes through the closing brace (a different code path from the streaming hasher), identical for all schedules and both skip settings. Every case is non-trivial (a distinct schedule)"));
+	cx.note("rule", json!("8 replays (all regimes; gecko, doubled end, no metadata, two without any frame) x read schedules of an environment-owned reader: full reads, fixed chunk sizes 1..16/32/../4096, EVERY two-piece split (one short read at every byte offset), every single short read (1,2,3 bytes) at every read-call index, one interrupted read call (ErrorKind::Interrupted, then the call is repeated) at every read-call index, and (thorough) every pair of short reads; x skip_frames {off,on}; plus 1..64 trailing bytes after the closing brace; plus hash not requested; plus call histories (a hashed read of the file cut at every 8th offset, which gives up part-way, then the whole file on the same thread); plus .slpp carry-through for 3 compressions. Oracle: hash == \"xxh3:\" + 16 hex digits of the ONE-SHOT xxh3_64 over the bytes through the closing brace (a different code path from the streaming hasher), identical for all schedules and both skip settings. Every case is non-trivial (a distinct schedule)"));
 	cx.note("exhaustive", json!(true));
 	cx.note("assumptions", json!(["xxhash-rust's one-shot xxh3_64 is the reference (trusted base)", "short reads hand out at least one byte (a zero-length read means EOF)"]));
 	let mut jobs: Vec<(Arc<Vec<u8>>, String, P)> = vec![];
@@ -140,6 +157,14 @@ pub fn run() {
 				let mut p = P { skip, hash: true, class: "trailing", ..Default::default() };
 				set_sched(&mut p, &if n % 2 == 0 { Sched::Full } else { Sched::Chunk(5) });
 				jobs.push((Arc::new(b), format!("{} + {} trailing bytes", label, n), p));
+			}
+			// history: a hashed read of a cut-off copy (every 8th cut), then the whole file, on the same thread
+			for cut in (0..bytes.len()).step_by(8) {
+				let mut p = P { skip, hash: true, class: "after-failed-read", ..Default::default() };
+				set_sched(&mut p, &Sched::Full);
+				p.n[0] = 2;
+				p.n[2] = cut as i64;
+				jobs.push((bytes.clone(), format!("{} after a hashed read of its first {} bytes", label, cut), p));
 			}
 			// .slpp carry-through
 			if !skip {
